@@ -417,3 +417,39 @@ Definition struct_basic (b : base) (st : sstate) (a : N) : option info :=
 
 (* accounts without code are compared without their (meaningless) code field *)
 Definition norm (i : info) : info := if empty_code_hash i then strip i else i.
+
+(* ------------------------------------------------------------ hypotheses of the C09 theorems *)
+
+(* what revm guarantees about a finalised post-state [i] of an account whose in-order pre-state is [pre]:
+   code is attached whenever the hash is not KECCAK_EMPTY and is the code of that hash ([cf]: code is a
+   function of its hash); code disappears (other than by deletion) only through an EIP-7702 clearing
+   authorisation, which bumps the nonce *)
+Definition info_ok (cf : N -> N) (pre : option info) (i : info) : Prop :=
+  (empty_code_hash i = false -> i_code i = Some (cf (i_hash i))) /\
+  (empty_code_hash i = true -> forall p, pre = Some p -> empty_code_hash p = false ->
+     i_nonce p <> i_nonce i \/ i_bal p <> i_bal i).
+
+(* in-order consistency of one written (non-beneficiary) account: the snapshot taken by the writer's
+   read is the in-order pre-state *)
+Definition acct_ok (cf : N -> N) (bm : N -> bool) (st : sstate) (sn : N -> option abasic) (a : N)
+    (acct : account) : Prop :=
+  bm a = false ->
+  match classify acct with
+  | Created i _ | Updated i _ => sn a = option_map abasic_of (s_info st a) /\ info_ok cf (s_info st a) i
+  | _ => True
+  end.
+
+Definition tx_ok (cf : N -> N) (bm : N -> bool) (st : sstate) (e : txeff) : Prop :=
+  NoDup (map fst (te_changes e)) /\
+  Forall (fun x => acct_ok cf bm st (te_snaps e) (fst x) (snd x)) (te_changes e).
+
+Fixpoint consistent_from (cf : N -> N) (bm : N -> bool) (st : sstate) (effs : list txeff) : Prop :=
+  match effs with
+  | [] => True
+  | e :: r => tx_ok cf bm st e /\ consistent_from cf bm (apply_struct st (te_changes e)) r
+  end.
+
+(* the block-start store knows the code of every account it holds *)
+Definition base_ok (cf : N -> N) (b : base) : Prop :=
+  forall a i, base_info b a = Some i -> empty_code_hash i = false ->
+    base_code b (i_hash i) = cf (i_hash i) /\ (i_code i = None \/ i_code i = Some (cf (i_hash i))).
